@@ -695,6 +695,17 @@ def load_func_for_dataclass(
                         with fn_gen.if_('json_key in field_to_parser'):
                             fn_gen.add_line("field = json_to_field[json_key] = json_key")
 
+                        if not meta.raise_on_unknown_json_key:
+                            # Keys this function has already found to be unknown.
+                            # They are not stored in `json_to_field`: that table is
+                            # shared by every load function generated for the class,
+                            # and one generated under `raise_on_unknown_json_key`
+                            # (the class nested under another main class) must
+                            # still reject them.
+                            _locals['unknown_keys'] = set()
+                            with fn_gen.elif_('json_key in unknown_keys'):
+                                fn_gen.add_line("field = ExplicitNull")
+
                         with fn_gen.else_():
                             # Transform JSON field name (typically camel-cased) to the
                             # snake-cased variant which is convention in Python.
@@ -714,7 +725,8 @@ def load_func_for_dataclass(
                                     # rejected each time it is seen, not only the first.
                                     fn_gen.add_line("field = ExplicitNull")
                                 else:
-                                    fn_gen.add_line("field = json_to_field[json_key] = ExplicitNull")
+                                    fn_gen.add_line("field = ExplicitNull")
+                                    fn_gen.add_line("unknown_keys.add(json_key)")
                                 fn_gen.add_line("LOG.warning('JSON field %r missing from dataclass schema, "
                                                 "class=%r, parsed field=%r',json_key,cls,py_field)")
 
@@ -722,18 +734,6 @@ def load_func_for_dataclass(
                                 if meta.raise_on_unknown_json_key:
                                     _globals['UnknownKeysError'] = UnknownKeysError
                                     fn_gen.add_line("raise UnknownKeysError(json_key, o, cls, cls_fields) from None")
-
-                    if meta.raise_on_unknown_json_key:
-                        # The key may have been cached as "ignored" by a function
-                        # generated for this class under another policy (the class
-                        # loaded on its own, or through another main class).
-                        known_keys = {path[0] for path in field_to_path.values()}
-                        if has_tag_assigned:
-                            known_keys.add(meta.tag_key)
-                        _locals['known_keys'] = frozenset(known_keys)
-                        _globals['UnknownKeysError'] = UnknownKeysError
-                        with fn_gen.if_('field is ExplicitNull and json_key not in known_keys'):
-                            fn_gen.add_line("raise UnknownKeysError(json_key, o, cls, cls_fields) from None")
 
                     # Exclude JSON keys that don't map to any fields.
                     with fn_gen.if_('field is not ExplicitNull'):
